@@ -197,3 +197,151 @@ def equality(ctx):
         )
     ctx.cover("some-equality-path", [z3.BoolVal(n_some > 0)])
     ctx.assume_note("collect_ast(x, K) is uninterpreted here (list of outermost K-nodes of x as computed by clingo's Transformer)")
+
+
+from pyvc.loops import LoopSpec  # noqa: E402
+
+TRIPLE = ("tuple", "ast", ("enum", "ComparisonOperator"), "ast")
+
+
+@unit("C05.comparison2comparisonlist", "C05", "ngo.utils.ast:comparison2comparisonlist", fallback={"mirror": "corpus", "trait": "none"})
+def comparison_list(ctx):
+    """t0 op1 t1 op2 t2 ... is split into exactly the binary comparisons (t_{i-1}, op_i, t_i), in order"""
+    m, ex = ctx.m, ctx.ex
+    wf = wf_of(ctx)
+    A = m.AST
+    st = ctx.state()
+    cmpn = ctx.sym("comparison", "ast")
+    st.assume(wf.wf("Comparison", cmpn.term, 2))
+    guards = A.Comparison_guards(cmpn.term)
+    ln, at = m.lst_funcs("ast")
+    lnT, atT = m.lst_funcs(TRIPLE)
+    _srt, mk, accs = m.tuple_parts(TRIPLE)
+
+    def T(i):
+        return z3.If(i == 0, A.Comparison_term(cmpn.term), A.Guard_term(at(guards, i - 1)))
+
+    def inv(c):
+        ret = c.term("ret", ("list", TRIPLE))
+        j = z3.Int(f"j!cl{fresh_id()}")
+        return [
+            lnT(ret) == c.k,
+            c.term("lhs", "ast") == T(c.k),
+            z3.ForAll([j], z3.Implies(z3.And(0 <= j, j < c.k), atT(ret, j) == mk(T(j), A.Guard_comparison(at(guards, j)), A.Guard_term(at(guards, j)))), patterns=[atT(ret, j)]),
+        ]
+
+    ex.loop_specs[("ngo.utils.ast:comparison2comparisonlist", 0)] = LoopSpec(inv=inv, modifies={"ret": ("list", TRIPLE), "lhs": "ast"}, name="prefix of the chain")
+    res = ctx.call(st, ctx.fn("ngo.utils.ast", "comparison2comparisonlist"), [cmpn])
+    ok, bad = returned(res)
+    ctx.cover("reach", st)
+    no_raise(ctx, "no-raise", res)
+    j = z3.Int("j!clp")
+    for n, (s, r) in enumerate(ok):
+        rt = ex.to_term(s, r, ("list", TRIPLE))
+        ctx.oblige(
+            f"post#{n}",
+            s,
+            z3.And(lnT(rt) == ln(guards), z3.ForAll([j], z3.Implies(z3.And(0 <= j, j < ln(guards)), atT(rt, j) == mk(T(j), A.Guard_comparison(at(guards, j)), A.Guard_term(at(guards, j)))))),
+            replay={"mirror": "comparison_list"},
+        )
+    ctx.adopt_engine_obligations(source="property", replay={"mirror": "comparison_list"})
+
+
+@unit("C05.chain-split-lemma", "C05", "ngo.normalize:normalize_operators (sign handling of split chains)", fallback={"mirror": "corpus", "trait": "none"})
+def chain_split_lemma(ctx):
+    """a comparison literal  s (t0 op1 t1 ... opn tn)  means  s(AND_i t_{i-1} op_i t_i); normalize_operators replaces it
+    by the literals  s(t_{i-1} op_i t_i)  (same sign on each: checked syntactically on the current source).  The two
+    mean the same iff the sign is positive or the chain has one link: lemma over the semantic base, with the negated
+    chain as a recorded known finding"""
+    import ast as pyast
+
+    sem, m = sem_of(ctx), ctx.m
+    S = m.enums["Sign"][1]
+    # (a) syntactic part: both comprehension sites of normalize.py build Literal(LOC, <x>.sign, Comparison(lhs, [Guard(cop, rhs)]))
+    mod = ctx.ex.load_module("ngo.normalize")
+    sites = []
+    for n in pyast.walk(mod):
+        if isinstance(n, pyast.ListComp) and isinstance(n.elt, pyast.Call) and getattr(n.elt.func, "id", "") == "Literal":
+            a = n.elt.args
+            sign_ok = len(a) == 3 and isinstance(a[1], pyast.Attribute) and a[1].attr == "sign"
+            inner = a[2] if len(a) == 3 else None
+            shape_ok = isinstance(inner, pyast.Call) and getattr(inner.func, "id", "") == "Comparison" and len(inner.args) == 2 and isinstance(inner.args[1], pyast.List) and len(inner.args[1].elts) == 1
+            src_ok = isinstance(n.generators[0].iter, pyast.Call) and getattr(n.generators[0].iter.func, "id", "") == "comparison2comparisonlist"
+            sites.append(bool(sign_ok and shape_ok and src_ok))
+    ctx.cover("reach", [z3.BoolVal(bool(sites))])
+    ctx.oblige("split-sites-copy-the-sign", [], z3.BoolVal(len(sites) == 2 and all(sites)), kind="frame", replay={"mirror": "corpus", "trait": "none"})
+    # (b) semantic lemma for a chain of two links (the general case follows link by link)
+    sign = ctx.sym("sign", ("enum", "Sign"))
+    c1, c2 = z3.Bools("link1 link2")
+    whole = sem.signed(sign.term, z3.And(c1, c2))
+    split = z3.And(sem.signed(sign.term, c1), sem.signed(sign.term, c2))
+    ctx.oblige(
+        "split-chain-means-the-same",
+        [],
+        whole == split,
+        kind="lemma",
+        replay={"mirror": "chain_split"},
+        exclude={"C05-negated-chain-split": sign.term == S["Negation"]},
+    )
+
+
+@unit("C05.exline_term", "C05", "ngo.normalize:exline_term", fallback={"mirror": "corpus", "trait": "none"})
+def exline_term(ctx):
+    """an arithmetic term t (unary / binary operation) is replaced by a variable A handed out by make_unique (fresh for the
+    statement) together with the single positive literal A = t; every other term is returned unchanged with no literal"""
+    m, ex = ctx.m, ctx.ex
+    wf = wf_of(ctx)
+    A = m.AST
+    S = m.enums["Sign"][1]
+    E = m.enums["ComparisonOperator"][1]
+    st = ctx.state()
+    term = ctx.sym("term", "ast")
+    st.assume(wf.wf("term", term.term, 1))
+    fresh_var = ctx.sym("fresh_variable", "ast")
+    st.assume(A.is_Variable(fresh_var.term))
+
+    def make_unique(e, s, a, k):
+        s.log.append(("make_unique", a[1]))
+        return [(s, fresh_var)]
+
+    ex.overrides["ngo.utils.globals:UniqueVariables.make_unique"] = make_unique
+    ctx.assume_note("make_unique is used through its contract (fresh variable, C07.make_unique)")
+    uv = ctx.new_object(st, "UniqueVariables", _allvars=st.alloc(ListObj(items=())))
+    res = ctx.call(st, ctx.fn("ngo.normalize", "exline_term"), [term, uv])
+    ok, bad = returned(res)
+    ctx.cover("reach", st)
+    no_raise(ctx, "no-raise", res)
+    ln, at = m.lst_funcs("ast")
+    arith = z3.Or(A.is_BinaryOperation(term.term), A.is_UnaryOperation(term.term))
+    for n, (s, r) in enumerate(ok):
+        new_term, lits = r.items
+        items = ex.B.concrete_items(s, lits)
+        calls = [e for e in s.log if e[0] == "make_unique"]
+        if items is None:
+            ctx.oblige(f"post#{n}", s, z3.BoolVal(False))
+            continue
+        if not items:
+            ctx.oblige(f"post-unchanged#{n}", s, z3.And(z3.Not(arith), new_term.term == term.term, z3.BoolVal(not calls)), replay={"mirror": "exline_term"})
+            continue
+        lit = items[0].term
+        atom = A.Literal_atom(lit)
+        g = at(A.Comparison_guards(atom), 0)
+        ctx.oblige(
+            f"post-exlined#{n}",
+            s,
+            z3.And(
+                z3.BoolVal(len(items) == 1 and len(calls) == 1),
+                arith,
+                new_term.term == fresh_var.term,
+                A.is_Literal(lit),
+                A.Literal_sign(lit) == S["NoSign"],
+                A.is_Comparison(atom),
+                A.Comparison_term(atom) == fresh_var.term,
+                ln(A.Comparison_guards(atom)) == 1,
+                A.is_Guard(g),
+                A.Guard_comparison(g) == E["Equal"],
+                A.Guard_term(g) == term.term,
+            ),
+            replay={"mirror": "exline_term"},
+        )
+    ctx.inputs = {"term": term}
